@@ -188,7 +188,9 @@ func execKAReconn(f []string) Result {
 		return n
 	}
 	connDone := make(chan struct{})
-	go func() { cli.Connect(context.Background(), "cid"); close(connDone) }()
+	// the usual pattern: the context given to Connect is released as soon as Connect has returned
+	connCtx, connCancel := context.WithCancel(context.Background())
+	go func() { cli.Connect(connCtx, "cid"); connCancel(); close(connDone) }()
 	if !waitFor(func() bool { sc.mu.Lock(); defer sc.mu.Unlock(); return sc.dialReq >= 1 }, 3*time.Second) {
 		r.Props = append(r.Props, viol("C09", "no-dial", "the reconnect loop never dialled"))
 		return r
@@ -216,6 +218,7 @@ func execKAReconn(f []string) Result {
 	sc.mu.Unlock()
 	if !waitFor(func() bool { sc.mu.Lock(); defer sc.mu.Unlock(); return c0.closed }, interval+timeout+3*time.Second) {
 		r.Props = append(r.Props, viol("C13", "silent-peer-not-detected", "the connection was not closed after the peer went silent (interval %v, timeout %v)", interval, timeout))
+		r.Props = append(r.Props, viol("C09", "no-redial-after-keepalive-timeout", "a connection whose peer went silent was never closed, so the client never dialled again (interval %v, timeout %v)", interval, timeout))
 		return r
 	}
 	sc.mu.Lock()
@@ -255,13 +258,62 @@ func execKAReconn(f []string) Result {
 			if e := c2.cli.Err(); e != nil {
 				r.Props = append(r.Props, viol("C16", "err-on-healthy-reconnected", "Err() of the healthy third connection is %v (stale keep-alive of the previous one?)", e))
 			}
-			dctx, cancel := context.WithTimeout(context.Background(), 3*time.Second)
-			derr := cli.Disconnect(dctx)
-			cancel()
+			// Disconnect while a PINGREQ is unanswered and the DISCONNECT itself is still queued behind a
+			// request that waits for its acknowledgement: the connection is healthy and must end gracefully
+			sc.mu.Lock()
+			sc.answerPings = false
+			sc.faults = []string{"si"} // the next request is processed but its acknowledgement is withheld
+			sc.mu.Unlock()
+			pingsBefore := pingsOn(2)
+			cli.Publish(context.Background(), &mqtt.Message{Topic: "t/0", QoS: mqtt.QoS1, Payload: []byte{0, 77, 0xAB}})
+			var pendingID uint16
+			waitFor(func() bool {
+				sc.mu.Lock()
+				defer sc.mu.Unlock()
+				for _, e := range sc.wire {
+					if e.conn == 2 && e.pkt.Type == 0x30 && e.tag == "!si" {
+						pendingID = e.pkt.ID
+						return true
+					}
+				}
+				return false
+			}, 3*time.Second)
+			waitFor(func() bool { return pingsOn(2) > pingsBefore }, interval+3*time.Second)
+			discDone := make(chan error, 1)
+			go func() {
+				dctx, cancel := context.WithTimeout(context.Background(), 5*time.Second)
+				defer cancel()
+				discDone <- cli.Disconnect(dctx)
+			}()
+			time.Sleep(interval + 5*time.Millisecond)
+			if e := c2.cli.Err(); e != nil {
+				r.Props = append(r.Props, viol("C16", "err-after-graceful-disconnect", "Disconnect during an unanswered ping: Err() of the healthy connection became %v", e))
+			}
+			// the withheld PUBACK arrives: the queued DISCONNECT can go out now
+			sc.mu.Lock()
+			if !c2.closed {
+				c2.in = append(c2.in, specAck(0x40, pendingID)...)
+			}
+			sc.cond.Broadcast()
+			sc.mu.Unlock()
+			var derr error
+			select {
+			case derr = <-discDone:
+			case <-time.After(6 * time.Second):
+				derr = context.DeadlineExceeded
+			}
 			if derr != nil && errors.Is(derr, context.DeadlineExceeded) {
 				r.Props = append(r.Props, viol("C09", "disconnect-did-not-return", "Disconnect did not return"))
 			}
 			time.Sleep(2*interval + 10*time.Millisecond)
+			sc.mu.Lock()
+			for _, st := range sc.states {
+				if strings.HasPrefix(st, "2:Closed") {
+					r.Props = append(r.Props, viol("C16", "closed-on-graceful-disconnect", "state callbacks of the gracefully disconnected connection: %v", sc.states))
+					break
+				}
+			}
+			sc.mu.Unlock()
 			if e := c2.cli.Err(); e != nil {
 				r.Props = append(r.Props, viol("C16", "err-after-graceful-disconnect", "Err() after a graceful Disconnect is %v", e))
 			}
